@@ -261,8 +261,7 @@ def check_market_orders(repo, rep):
                 pos = Obj("Position", name="position", attrs={"current_price": R.atom("cur")}, open_world=True)
                 broker = W.obj_of(repo, "jesse/services/broker.py", "Broker", "broker",
                                   {"position": pos, "symbol": "BTC-USDT", "exchange": "Sandbox", "timeframe": "1m", "api": api})
-                state["orders_state"] = orders_state
-                it.state = state
+                it.state = {"orders_state": orders_state}
                 return broker
             return self_obj
         outs = W.run_function(repo, "jesse/services/broker.py", f"Broker.{meth}", lambda it: ([R.atom("q")], {}),
